@@ -12,7 +12,8 @@ a *rejection guard* (assert T / if not T: raise) that
     what is not already established by earlier guards - is implied by the presence condition),
   - is not swallowed by an exception handler.
 """
-from sa.canon import (A, f_and, f_or, f_not, f_implies, f_show, f_equiv, f_atoms, EXISTS_PRETTY)
+from sa.canon import (A, f_and, f_or, f_not, f_implies, f_show, f_equiv, f_atoms, EXISTS_PRETTY,
+                      f_subst)
 from sa.model import AnalysisError
 from . import loaderfacts
 
@@ -66,7 +67,7 @@ def schemata(lf):
     FK, FV = f"each({FWI})[0]", f"each({FWI})[1]"
     f0, f1 = f"eval({FK})[0]", f"eval({FK})[1]"
     SENS = f"{{eval({SK}): {SV} for each({SHI})}}"
-    KEYS = "enumerate(Y['sensitive_hosts'].keys())"
+    KEYS = "enumerate(Y['sensitive_hosts'])"
 
     def lenpos(x):
         return A(f"0<len({x})")
@@ -150,7 +151,7 @@ def schemata(lf):
         ("hosts.all-addresses", "a configuration for every address of the network", [],
          [f_not(ex(en_sub, ex(f"range(each({en_sub})[1])", f_not(A(
              f"str(((each({en_sub})[0]+1), each(range(each({en_sub})[1])))) in "
-             f"Y['host_configurations'].keys()")))))], None),
+             f"Y['host_configurations']")))))], None),
         ("host.dict", "every host configuration is a dict", [HCI],
          [A(f"isinstance({HC}, dict)")], None),
         ("host.keys", "every host configuration has os, services, processes", [HCI, hk],
@@ -208,6 +209,10 @@ DOC_OPTIONAL = {"step_limit": "int"}
 SCAN_KEYS = ["os_scan_cost", "service_scan_cost", "subnet_scan_cost", "process_scan_cost"]
 
 
+import re as _re2
+_NONE_SECTION = _re2.compile(r"None is Y\['[a-z_]+'\]")
+
+
 def find_guard(lf, conj, loops, allowed, swallowed):
     """a guard that implies `conj`, in the required loops, executed whenever `allowed` holds"""
     near = None
@@ -221,6 +226,9 @@ def find_guard(lf, conj, loops, allowed, swallowed):
         # document within the (optional-key) presence condition must then satisfy the conjunct:
         #      allowed & (!res | F)  =>  conjunct
         passes = f_or([f_not(res), g.F]) if res != ("true",) else g.F
+        # a section of the document is never None once it passed the section type table (a guard
+        # of its own, C18.sections.types)
+        passes = f_subst(passes, lambda a: ("false",) if _NONE_SECTION.fullmatch(a) else None)
         lhs = f_and([allowed, passes]) if allowed is not None else passes
         if not (f_atoms(conj) & f_atoms(lhs)):
             continue
